@@ -11,7 +11,7 @@ WT=/tmp/c10-st-$$
 WORK=$WT-work
 git -C /repo worktree add --detach "$WT" HEAD >/dev/null 2>&1 || exit 2
 trap 'git -C /repo worktree remove --force "$WT" >/dev/null 2>&1; rm -rf "$WORK" "$WT"' EXIT
-for p in C10-hasher-bound-to-multihash-code.patch C10-duplicate-fetch-registry.patch C18-range-id-v0-wrap.patch; do
+for p in C10-hasher-bound-to-multihash-code.patch C10-duplicate-fetch-registry.patch C10-fetch-populates-own-block.patch C18-range-id-v0-wrap.patch; do
   if git -C "$WT" apply --check "$VERIF/proposed_fixes/$p" 2>/dev/null; then
     git -C "$WT" apply "$VERIF/proposed_fixes/$p" && echo "base: applied $p"
   else
